@@ -641,7 +641,7 @@ func main() {
 		r.Finish(false)
 	}
 
-	budget := 120 * time.Second
+	budget := 200 * time.Second
 	if r.Thorough() {
 		budget = 12 * time.Minute
 	}
